@@ -65,9 +65,14 @@ func (c *FnCtx) coerce(st *State, t Term, to types.Type) Term {
 			d.declFun(bn, t.Sort.SMT(), "V")
 			d.declFun(un, "V", t.Sort.SMT())
 			d.declFun("dyntype", "V", "Int")
-			d.addAxiom(bn+".inv", fmt.Sprintf("(forall ((x %s)) (! (and (= (%s (%s x)) x) (not (= (%s x) nilV))) :pattern ((%s x))))", t.Sort.SMT(), un, bn, bn, bn))
+			if t.Sort.Kind != KStruct && t.Sort.Kind != KSlice {
+				d.addAxiom(bn+".inv", fmt.Sprintf("(forall ((x %s)) (! (and (= (%s (%s x)) x) (not (= (%s x) nilV))) :pattern ((%s x))))", t.Sort.SMT(), un, bn, bn, bn))
+			}
 		}
 		b := sApp(bn, t.S)
+		// ground instance of the boxing axiom (a quantifier over a datatype that contains arrays makes
+		// the solvers answer unknown; every boxed term comes through here, so instances suffice)
+		st.assume(sAnd(sEq(sApp(un, b), t.S), sNot(sEq(b, "nilV"))))
 		if t.T != nil {
 			st.assume(sEq(sApp("dyntype", b), fmt.Sprint(d.typeTag(t.T))))
 		}
@@ -89,7 +94,9 @@ func (c *FnCtx) unbox(t Term, to types.Type) Term {
 		d.declFun(bn, so.SMT(), "V")
 		d.declFun(un, "V", so.SMT())
 		d.declFun("dyntype", "V", "Int")
-		d.addAxiom(bn+".inv", fmt.Sprintf("(forall ((x %s)) (! (and (= (%s (%s x)) x) (not (= (%s x) nilV))) :pattern ((%s x))))", so.SMT(), un, bn, bn, bn))
+		if so.Kind != KStruct && so.Kind != KSlice {
+			d.addAxiom(bn+".inv", fmt.Sprintf("(forall ((x %s)) (! (and (= (%s (%s x)) x) (not (= (%s x) nilV))) :pattern ((%s x))))", so.SMT(), un, bn, bn, bn))
+		}
 	}
 	return Term{S: sApp(un, t.S), Sort: so, T: to}
 }
@@ -125,6 +132,10 @@ func (c *FnCtx) evalExpr(st *State, e ast.Expr) Term {
 		switch o := obj.(type) {
 		case *types.Var:
 			if t, ok := st.vars[o]; ok {
+				if t.Cell {
+					t.Cell = false
+					return c.derefValue(st, t, x.Pos())
+				}
 				return t
 			}
 			if o.Pkg() != nil && o.Parent() == o.Pkg().Scope() {
@@ -137,7 +148,7 @@ func (c *FnCtx) evalExpr(st *State, e ast.Expr) Term {
 			st.vars[o] = t
 			return t
 		case *types.Func:
-			n := "fn:" + sanitize(funcKeyOf(o))
+			n := "fnval." + sanitize(funcKeyOf(o))
 			d.declConst(n, sV)
 			return Term{S: n, Sort: sV, T: o.Type()}
 		case *types.Const:
@@ -164,7 +175,7 @@ func (c *FnCtx) evalExpr(st *State, e ast.Expr) Term {
 			c.readFacts(st, t)
 			return t
 		case *types.Func:
-			n := "fn:" + sanitize(funcKeyOf(o))
+			n := "fnval." + sanitize(funcKeyOf(o))
 			d.declConst(n, sV)
 			return Term{S: n, Sort: sV, T: o.Type()}
 		case *types.Const:
@@ -328,10 +339,11 @@ func (c *FnCtx) derefValue(st *State, p Term, pos token.Pos) Term {
 		so := c.e.d.sortOf(n)
 		if so.Kind != KStruct {
 			// pointer to an opaque (dependency) struct: the value is an uninterpreted function of the pointer
-			fn := "deref." + typeShortName(n)
-			c.e.d.declFun(fn, "V", "V")
-			c.e.trusted["values of opaque dependency structs read through pointers are uninterpreted (deref."+typeShortName(n)+")"] = true
-			return Term{S: sApp(fn, p.S), Sort: sV, T: n}
+			// pointer to an opaque (dependency) struct: the value lives in the pointer-cell array of its type,
+			// like the target of any other non-struct pointer (so &x / *p / deref(p) in specs agree)
+			key := "P:" + typeShortName(n)
+			arr := c.heapGet(st, key, arraySort(sV, sV))
+			return Term{S: sSel(arr.S, p.S), Sort: sV, T: n}
 		}
 		var parts []string
 		for i := 0; i < stt.NumFields(); i++ {
@@ -386,7 +398,27 @@ func (c *FnCtx) addressOf(st *State, x ast.Expr) Term {
 			}
 		}
 	case *ast.Ident:
-		// &local : opaque pointer; later accesses through it are not modelled
+		// &local of a non-struct (or opaque) type: the local moves into a heap cell (P:<type>[ref]); reads
+		// and writes of the local go through the cell from here on, so aliasing through the pointer is modelled
+		if v, ok := c.info.ObjectOf(y).(*types.Var); ok && !v.IsField() && !(v.Pkg() != nil && v.Parent() == v.Pkg().Scope()) {
+			if cur, ok := st.vars[v]; ok {
+				if cur.Cell {
+					cur.Cell = false
+					return cur
+				}
+				if nn, _, isPtr := derefNamedStruct(v.Type()); nn == nil || isPtr || !c.e.d.modelled(nn) {
+					pt := types.NewPointer(v.Type())
+					ref := Term{S: c.newRef(st, "cell_"+v.Name()), Sort: sV, T: pt}
+					key := "P:" + typeShortName(v.Type())
+					arr := c.heapGet(st, key, arraySort(sV, c.e.d.sortOf(v.Type())))
+					c.heapSet(st, key, Term{S: sSto(arr.S, ref.S, cur.S), Sort: arr.Sort})
+					cell := ref
+					cell.Cell = true
+					st.vars[v] = cell
+					return ref
+				}
+			}
+		}
 		if v, ok := c.info.ObjectOf(y).(*types.Var); ok {
 			n := c.e.d.freshConst("addr_"+v.Name(), sV)
 			st.assume(sNot(sEq(n, "nilV")))
